@@ -25,9 +25,9 @@ MANIFEST = dict(
          "of chained strings); verification around atoms loses and invents nothing when one atom is chosen on every way through the pattern (decompose); the chain "
          "bookkeeping of scan.c (model of _yr_scan_verify_chained_string_match) never confirms a wrong pair (chain_sound, any arrival order) and confirms every legal pair of a "
          "two-piece chain under the hypotheses H1-H3 (chain_exact_partial, chain_matches_spec_partial: H1 = candidates in start order is what finding F13 violates, H2 = one "
-         "length per head offset is what finding C02-chain-single-length violates); the bytecode VM model is sound on emitted code for the jump-free fragment with nested "
-         "alternatives (vm_sound_partial). NOT proved: VM soundness with jumps / backward code / the fast matcher, VM completeness, chains of more than two pieces, atom "
-         "extraction and Aho-Corasick. That gap is covered by SAMPLING on every run: generated patterns x buffers through the real engine vs. the compiled Lean specification "
+         "length per head offset is what finding C02-chain-single-length violates); the bytecode VM model (yr_re_exec) is sound on the code of the emit model for the WHOLE hex "
+         "fragment - bytes, masks, negations, jumps, nested alternatives - in forward direction (vm_sound_partial). NOT proved: VM soundness for backward code and for the fast "
+         "matcher yr_re_fast_exec, VM completeness, chains of more than two pieces, atom extraction and Aho-Corasick. That gap is covered by SAMPLING on every run: generated patterns x buffers through the real engine vs. the compiled Lean specification "
          "(complete match lists, both directions of the iff), the parser AST tie, the real bytecode through the C VM and the Lean VM model (exact agreement incl. callback "
          "order), the whole-pattern code run exhaustively vs. the specification, and the Lean emit model vs. the bytes yr_re_ast_emit_code writes.",
     design_ref="DESIGN.md §4 D6/D7, §5 C02",
